@@ -35,7 +35,7 @@ def main(argv):
     # 2. audit
     ob = common.obligations_for(pid)
     theorems = ob.get("theorems", [])
-    bad_src = common.source_grep()
+    bad_src = common.source_grep(ob.get("modules", []))
     axioms = common.audit_axioms(theorems, ob.get("modules", []))
     discharged, problems = 0, []
     for t in theorems:
